@@ -81,6 +81,7 @@ const preludeAxioms = `(assert (forall ((r Int)) (! (=> (<= r 0) (existed r)) :p
 (assert (forall ((a (Array Int Int)) (o Int) (n Int) (lo Int) (hi Int)) (! (=> (and (<= 0 lo) (<= lo hi) (<= hi n)) (= (seq_sub (seqof a o n) lo hi) (seqof a (+ o lo) (- hi lo)))) :pattern ((seq_sub (seqof a o n) lo hi)))))
 (assert (forall ((q BSeq) (a Int) (b Int) (c Int)) (! (=> (and (<= 0 a) (<= a b) (<= b c) (<= c (seq_len q))) (= (seq_cat (seq_sub q a b) (seq_sub q b c)) (seq_sub q a c))) :pattern ((seq_cat (seq_sub q a b) (seq_sub q b c))))))
 (assert (forall ((q BSeq) (a Int)) (! (= (seq_sub q a a) seq_empty) :pattern ((seq_sub q a a)))))
+(assert (forall ((q BSeq) (a Int) (b Int) (c Int) (d Int)) (! (=> (and (<= 0 a) (<= a b) (<= b (seq_len q)) (<= 0 c) (<= c d) (<= d (- b a))) (= (seq_sub (seq_sub q a b) c d) (seq_sub q (+ a c) (+ a d)))) :pattern ((seq_sub (seq_sub q a b) c d)))))
 (assert (forall ((q BSeq) (n Int)) (! (=> (<= n 0) (= (seq_sub q 0 n) seq_empty)) :pattern ((seq_sub q 0 n)))))
 (assert (forall ((b Int)) (! (=> (>= b 0) (= (bor 0 b) b)) :pattern ((bor 0 b)))))
 (assert (forall ((a Int)) (! (=> (>= a 0) (= (bor a 0) a)) :pattern ((bor a 0)))))
